@@ -222,7 +222,7 @@ Section BvhProofs.
   Lemma step_keys st o st' :
     NoDup (map fst (cs_ st)) -> step st o = XOk st' -> NoDup (map fst (cs_ st')).
   Proof.
-    intros Hk. destruct o as [f i|t|w|]; simpl.
+    intros Hk. destruct o as [f i|t|w| |f]; simpl.
     - unfold Bvh.add_collider. destruct (hget coll (heap_ st) i); simpl; [|discriminate].
       destruct (insert_aabb (atree_ st) _ (f, i)); simpl; [|discriminate].
       intros E; inversion E; subst; simpl. apply (dict_set_NoDup _ _ feqb feqb_spec); auto.
@@ -231,6 +231,8 @@ Section BvhProofs.
     - unfold Bvh.update_collider_poses.
       destruct (upd_loop _ _ _ _) as [[hp t]|e]; simpl; [|discriminate].
       intros E; inversion E; subst; simpl; auto.
+    - unfold Bvh.remove_collider. destruct (dict_mem feqb (cs_ st) f); [|discriminate].
+      intros E; inversion E; subst; simpl. apply dict_pop_NoDup; auto.
   Qed.
 
   Lemma run_keys h : forall st st',
@@ -580,7 +582,7 @@ Section BvhProofs.
 
   Lemma step_good st o st' : Forall good (heap_ st) -> step st o = XOk st' -> Forall good (heap_ st').
   Proof.
-    intros Hg. destruct o as [f i|t|w|]; simpl.
+    intros Hg. destruct o as [f i|t|w| |f]; simpl.
     - unfold Bvh.add_collider. destruct (hget coll (heap_ st) i); simpl; [|discriminate].
       destruct (insert_aabb (atree_ st) _ (f, i)); simpl; [|discriminate].
       intros E; inversion E; subst; simpl; auto.
@@ -589,6 +591,8 @@ Section BvhProofs.
     - unfold Bvh.update_collider_poses.
       destruct (upd_loop _ _ _ _) as [[hp t]|e] eqn:E1; simpl; [|discriminate].
       intros E; inversion E; subst; simpl. eapply upd_loop_good; eauto.
+    - unfold Bvh.remove_collider. destruct (dict_mem feqb (cs_ st) f); [|discriminate].
+      intros E; inversion E; subst; simpl; auto.
   Qed.
 
   Lemma run_good h : forall st st',
